@@ -55,6 +55,7 @@ CHECKS["C20"] = {
     "parts": [
         {"part": "history-crash", "pkg": KSP, "test": "TestVerif_C20_History", "quick": 1500, "thorough": 20000},
         {"part": "reset-faults", "pkg": KSP, "test": "TestVerif_C20_ResetFaults", "quick": 300, "thorough": 4000},
+        {"part": "reset-interleave", "pkg": KSP, "test": "TestVerif_C20_ResetInterleave", "quick": 600, "thorough": 8000},
     ],
 }
 
